@@ -7,6 +7,8 @@ set_option linter.unusedVariables false
 def ClockSkewTolerance : Go.Duration := ((2 : Int) * Go.Minute)
 def ClockSkewToleranceFuture : Go.Duration := ((2 : Int) * Go.Minute)
 def ClockSkewTolerancePast : Go.Duration := ((10 : Int) * Go.Second)
+def MinRateLimit : Int := (10 : Int)
+def MinSessionEncryptionKeyLength : Int := (32 : Int)
 def absoluteSessionTimeout : Go.Duration := ((24 : Int) * Go.Hour)
 def accessTokenCookie : Go.Str := ['_','o','i','d','c','_','r','a','c','z','y','l','o','_','a']
 def defaultBlacklistDuration : Go.Duration := ((24 : Int) * Go.Hour)
@@ -782,6 +784,212 @@ def JWKCache_GetJWKS {σ : Type} (ops : Go.DOps σ) (c : Go.JwkCache) (ctx : Go.
         else
           let c := { c with expiresAt := (Go.timeAdd (ops.clock w) lifetime) }
           (((jwks, (none : Go.Err)), c), w)
+
+/-- isValidLogLevel (settings.go) -/
+def isValidLogLevel (level : Go.Str) : Bool :=
+  (((level == ['d','e','b','u','g']) || (level == ['i','n','f','o'])) || (level == ['e','r','r','o','r']))
+
+/-- Config.Validate (settings.go) -/
+def Config_Validate (c : Go.Config) : Go.Err :=
+  if (c.ProviderURL == ([] : Go.Str)) then
+    (some (['p','r','o','v','i','d','e','r','U','R','L',' ','i','s',' ','r','e','q','u','i','r','e','d']))
+  else
+    if (!(c.isValidSecureURL c.ProviderURL)) then
+      (some (['p','r','o','v','i','d','e','r','U','R','L',' ','m','u','s','t',' ','b','e',' ','a',' ','v','a','l','i','d',' ','H','T','T','P','S',' ','U','R','L']))
+    else
+      if (c.CallbackURL == ([] : Go.Str)) then
+        (some (['c','a','l','l','b','a','c','k','U','R','L',' ','i','s',' ','r','e','q','u','i','r','e','d']))
+      else
+        if (!(Go.hasPrefix c.CallbackURL ['/'])) then
+          (some (['c','a','l','l','b','a','c','k','U','R','L',' ','m','u','s','t',' ','s','t','a','r','t',' ','w','i','t','h',' ','/']))
+        else
+          if (c.ClientID == ([] : Go.Str)) then
+            (some (['c','l','i','e','n','t','I','D',' ','i','s',' ','r','e','q','u','i','r','e','d']))
+          else
+            if (c.ClientSecret == ([] : Go.Str)) then
+              (some (['c','l','i','e','n','t','S','e','c','r','e','t',' ','i','s',' ','r','e','q','u','i','r','e','d']))
+            else
+              if (c.SessionEncryptionKey == ([] : Go.Str)) then
+                (some (['s','e','s','s','i','o','n','E','n','c','r','y','p','t','i','o','n','K','e','y',' ','i','s',' ','r','e','q','u','i','r','e','d']))
+              else
+                if (decide ((c.SessionEncryptionKey.length : Int) < MinSessionEncryptionKeyLength)) then
+                  (some (['s','e','s','s','i','o','n','E','n','c','r','y','p','t','i','o','n','K','e','y',' ','m','u','s','t',' ','b','e',' ','a','t',' ','l','e','a','s','t',' ','%','d'] ++ [' ','c','h','a','r','a','c','t','e','r','s',' ','l','o','n','g']))
+                else
+                  if ((c.LogLevel != ([] : Go.Str)) && (!(isValidLogLevel c.LogLevel))) then
+                    (some (['l','o','g','L','e','v','e','l',' ','m','u','s','t',' ','b','e',' ','o','n','e',' ','o','f',':',' ','d','e','b','u','g',',',' ','i','n','f','o',',',' ','e','r','r','o','r']))
+                  else
+                    match Go.forRange c.ExcludedURLs () (fun url () =>
+                      if (!(Go.hasPrefix url ['/'])) then
+                        .ret ((some (['e','x','c','l','u','d','e','d',' ','U','R','L',' ','m','u','s','t',' ','s','t','a','r','t',' ','w','i','t','h',' ','/',':',' '] ++ url)))
+                      else
+                        if (Go.contains url ['.','.']) then
+                          .ret ((some (['e','x','c','l','u','d','e','d',' ','U','R','L',' ','m','u','s','t',' ','n','o','t',' ','c','o','n','t','a','i','n',' ','p','a','t','h',' ','t','r','a','v','e','r','s','a','l',':',' '] ++ url)))
+                        else
+                          if (Go.contains url ['*']) then
+                            .ret ((some (['e','x','c','l','u','d','e','d',' ','U','R','L',' ','m','u','s','t',' ','n','o','t',' ','c','o','n','t','a','i','n',' ','w','i','l','d','c','a','r','d','s',':',' '] ++ url)))
+                          else
+                            .next ()) with
+                    | .ret r => r
+                    | .next () =>
+                      if ((c.RevocationURL != ([] : Go.Str)) && (!(c.isValidSecureURL c.RevocationURL))) then
+                        (some (['r','e','v','o','c','a','t','i','o','n','U','R','L',' ','m','u','s','t',' ','b','e',' ','a',' ','v','a','l','i','d',' ','H','T','T','P','S',' ','U','R','L']))
+                      else
+                        if ((c.OIDCEndSessionURL != ([] : Go.Str)) && (!(c.isValidSecureURL c.OIDCEndSessionURL))) then
+                          (some (['o','i','d','c','E','n','d','S','e','s','s','i','o','n','U','R','L',' ','m','u','s','t',' ','b','e',' ','a',' ','v','a','l','i','d',' ','H','T','T','P','S',' ','U','R','L']))
+                        else
+                          if ((c.PostLogoutRedirectURI != ([] : Go.Str)) && (c.PostLogoutRedirectURI != ['/'])) then
+                            if ((!(c.isValidSecureURL c.PostLogoutRedirectURI)) && (!(Go.hasPrefix c.PostLogoutRedirectURI ['/']))) then
+                              (some (['p','o','s','t','L','o','g','o','u','t','R','e','d','i','r','e','c','t','U','R','I',' ','m','u','s','t',' ','b','e',' ','e','i','t','h','e','r',' ','a',' ','v','a','l','i','d',' ','H','T','T','P','S',' ','U','R','L',' ','o','r',' ','s','t','a','r','t',' ','w','i','t','h',' ','/']))
+                            else
+                              if (decide (c.RateLimit < MinRateLimit)) then
+                                (some (['r','a','t','e','L','i','m','i','t',' ','m','u','s','t',' ','b','e',' ','a','t',' ','l','e','a','s','t',' ','%','d']))
+                              else
+                                if (decide (c.RefreshGracePeriodSeconds < (0 : Int))) then
+                                  (some (['r','e','f','r','e','s','h','G','r','a','c','e','P','e','r','i','o','d','S','e','c','o','n','d','s',' ','c','a','n','n','o','t',' ','b','e',' ','n','e','g','a','t','i','v','e']))
+                                else
+                                  match Go.forRange c.Headers () (fun header () =>
+                                    if (header.Name == ([] : Go.Str)) then
+                                      .ret ((some (['h','e','a','d','e','r',' ','n','a','m','e',' ','c','a','n','n','o','t',' ','b','e',' ','e','m','p','t','y'])))
+                                    else
+                                      if (header.Value == ([] : Go.Str)) then
+                                        .ret ((some (['h','e','a','d','e','r',' ','v','a','l','u','e',' ','t','e','m','p','l','a','t','e',' ','c','a','n','n','o','t',' ','b','e',' ','e','m','p','t','y'])))
+                                      else
+                                        if ((!(Go.contains header.Value ['{','{'])) || (!(Go.contains header.Value ['}','}']))) then
+                                          .ret ((some (['h','e','a','d','e','r',' ','v','a','l','u','e',' ','\''] ++ header.Value ++ ['\'',' ','d','o','e','s',' ','n','o','t',' ','a','p','p','e','a','r',' ','t','o',' ','b','e',' ','a',' ','v','a','l','i','d',' ','t','e','m','p','l','a','t','e',' ','(','m','i','s','s','i','n','g',' ','{','{',' ','}','}',')'])))
+                                        else
+                                          if (Go.contains header.Value ['{','{','.','c','l','a','i','m','s']) then
+                                            .ret ((some (['h','e','a','d','e','r',' ','t','e','m','p','l','a','t','e',' ','\''] ++ header.Value ++ ['\'',' ','a','p','p','e','a','r','s',' ','t','o',' ','u','s','e',' ','l','o','w','e','r','c','a','s','e',' ','\'','c','l','a','i','m','s','\'',' ','-',' ','u','s','e',' ','\'','{','{','.','C','l','a','i','m','s','.','.','.','\'',' ','i','n','s','t','e','a','d',' ','(','c','a','s','e',' ','s','e','n','s','i','t','i','v','e',')'])))
+                                          else
+                                            if (Go.contains header.Value ['{','{','.','a','c','c','e','s','s','T','o','k','e','n']) then
+                                              .ret ((some (['h','e','a','d','e','r',' ','t','e','m','p','l','a','t','e',' ','\''] ++ header.Value ++ ['\'',' ','a','p','p','e','a','r','s',' ','t','o',' ','u','s','e',' ','l','o','w','e','r','c','a','s','e',' ','\'','a','c','c','e','s','s','T','o','k','e','n','\'',' ','-',' ','u','s','e',' ','\'','{','{','.','A','c','c','e','s','s','T','o','k','e','n','.','.','.','\'',' ','i','n','s','t','e','a','d',' ','(','c','a','s','e',' ','s','e','n','s','i','t','i','v','e',')'])))
+                                            else
+                                              if (Go.contains header.Value ['{','{','.','i','d','T','o','k','e','n']) then
+                                                .ret ((some (['h','e','a','d','e','r',' ','t','e','m','p','l','a','t','e',' ','\''] ++ header.Value ++ ['\'',' ','a','p','p','e','a','r','s',' ','t','o',' ','u','s','e',' ','l','o','w','e','r','c','a','s','e',' ','\'','i','d','T','o','k','e','n','\'',' ','-',' ','u','s','e',' ','\'','{','{','.','I','d','T','o','k','e','n','.','.','.','\'',' ','i','n','s','t','e','a','d',' ','(','c','a','s','e',' ','s','e','n','s','i','t','i','v','e',')'])))
+                                              else
+                                                if (Go.contains header.Value ['{','{','.','r','e','f','r','e','s','h','T','o','k','e','n']) then
+                                                  .ret ((some (['h','e','a','d','e','r',' ','t','e','m','p','l','a','t','e',' ','\''] ++ header.Value ++ ['\'',' ','a','p','p','e','a','r','s',' ','t','o',' ','u','s','e',' ','l','o','w','e','r','c','a','s','e',' ','\'','r','e','f','r','e','s','h','T','o','k','e','n','\'',' ','-',' ','u','s','e',' ','\'','{','{','.','R','e','f','r','e','s','h','T','o','k','e','n','.','.','.','\'',' ','i','n','s','t','e','a','d',' ','(','c','a','s','e',' ','s','e','n','s','i','t','i','v','e',')'])))
+                                                else
+                                                  .next ()) with
+                                  | .ret r => r
+                                  | .next () =>
+                                    (none : Go.Err)
+                                  | .brk () =>
+                                    (none : Go.Err)
+                          else
+                            if (decide (c.RateLimit < MinRateLimit)) then
+                              (some (['r','a','t','e','L','i','m','i','t',' ','m','u','s','t',' ','b','e',' ','a','t',' ','l','e','a','s','t',' ','%','d']))
+                            else
+                              if (decide (c.RefreshGracePeriodSeconds < (0 : Int))) then
+                                (some (['r','e','f','r','e','s','h','G','r','a','c','e','P','e','r','i','o','d','S','e','c','o','n','d','s',' ','c','a','n','n','o','t',' ','b','e',' ','n','e','g','a','t','i','v','e']))
+                              else
+                                match Go.forRange c.Headers () (fun header () =>
+                                  if (header.Name == ([] : Go.Str)) then
+                                    .ret ((some (['h','e','a','d','e','r',' ','n','a','m','e',' ','c','a','n','n','o','t',' ','b','e',' ','e','m','p','t','y'])))
+                                  else
+                                    if (header.Value == ([] : Go.Str)) then
+                                      .ret ((some (['h','e','a','d','e','r',' ','v','a','l','u','e',' ','t','e','m','p','l','a','t','e',' ','c','a','n','n','o','t',' ','b','e',' ','e','m','p','t','y'])))
+                                    else
+                                      if ((!(Go.contains header.Value ['{','{'])) || (!(Go.contains header.Value ['}','}']))) then
+                                        .ret ((some (['h','e','a','d','e','r',' ','v','a','l','u','e',' ','\''] ++ header.Value ++ ['\'',' ','d','o','e','s',' ','n','o','t',' ','a','p','p','e','a','r',' ','t','o',' ','b','e',' ','a',' ','v','a','l','i','d',' ','t','e','m','p','l','a','t','e',' ','(','m','i','s','s','i','n','g',' ','{','{',' ','}','}',')'])))
+                                      else
+                                        if (Go.contains header.Value ['{','{','.','c','l','a','i','m','s']) then
+                                          .ret ((some (['h','e','a','d','e','r',' ','t','e','m','p','l','a','t','e',' ','\''] ++ header.Value ++ ['\'',' ','a','p','p','e','a','r','s',' ','t','o',' ','u','s','e',' ','l','o','w','e','r','c','a','s','e',' ','\'','c','l','a','i','m','s','\'',' ','-',' ','u','s','e',' ','\'','{','{','.','C','l','a','i','m','s','.','.','.','\'',' ','i','n','s','t','e','a','d',' ','(','c','a','s','e',' ','s','e','n','s','i','t','i','v','e',')'])))
+                                        else
+                                          if (Go.contains header.Value ['{','{','.','a','c','c','e','s','s','T','o','k','e','n']) then
+                                            .ret ((some (['h','e','a','d','e','r',' ','t','e','m','p','l','a','t','e',' ','\''] ++ header.Value ++ ['\'',' ','a','p','p','e','a','r','s',' ','t','o',' ','u','s','e',' ','l','o','w','e','r','c','a','s','e',' ','\'','a','c','c','e','s','s','T','o','k','e','n','\'',' ','-',' ','u','s','e',' ','\'','{','{','.','A','c','c','e','s','s','T','o','k','e','n','.','.','.','\'',' ','i','n','s','t','e','a','d',' ','(','c','a','s','e',' ','s','e','n','s','i','t','i','v','e',')'])))
+                                          else
+                                            if (Go.contains header.Value ['{','{','.','i','d','T','o','k','e','n']) then
+                                              .ret ((some (['h','e','a','d','e','r',' ','t','e','m','p','l','a','t','e',' ','\''] ++ header.Value ++ ['\'',' ','a','p','p','e','a','r','s',' ','t','o',' ','u','s','e',' ','l','o','w','e','r','c','a','s','e',' ','\'','i','d','T','o','k','e','n','\'',' ','-',' ','u','s','e',' ','\'','{','{','.','I','d','T','o','k','e','n','.','.','.','\'',' ','i','n','s','t','e','a','d',' ','(','c','a','s','e',' ','s','e','n','s','i','t','i','v','e',')'])))
+                                            else
+                                              if (Go.contains header.Value ['{','{','.','r','e','f','r','e','s','h','T','o','k','e','n']) then
+                                                .ret ((some (['h','e','a','d','e','r',' ','t','e','m','p','l','a','t','e',' ','\''] ++ header.Value ++ ['\'',' ','a','p','p','e','a','r','s',' ','t','o',' ','u','s','e',' ','l','o','w','e','r','c','a','s','e',' ','\'','r','e','f','r','e','s','h','T','o','k','e','n','\'',' ','-',' ','u','s','e',' ','\'','{','{','.','R','e','f','r','e','s','h','T','o','k','e','n','.','.','.','\'',' ','i','n','s','t','e','a','d',' ','(','c','a','s','e',' ','s','e','n','s','i','t','i','v','e',')'])))
+                                              else
+                                                .next ()) with
+                                | .ret r => r
+                                | .next () =>
+                                  (none : Go.Err)
+                                | .brk () =>
+                                  (none : Go.Err)
+                    | .brk () =>
+                      if ((c.RevocationURL != ([] : Go.Str)) && (!(c.isValidSecureURL c.RevocationURL))) then
+                        (some (['r','e','v','o','c','a','t','i','o','n','U','R','L',' ','m','u','s','t',' ','b','e',' ','a',' ','v','a','l','i','d',' ','H','T','T','P','S',' ','U','R','L']))
+                      else
+                        if ((c.OIDCEndSessionURL != ([] : Go.Str)) && (!(c.isValidSecureURL c.OIDCEndSessionURL))) then
+                          (some (['o','i','d','c','E','n','d','S','e','s','s','i','o','n','U','R','L',' ','m','u','s','t',' ','b','e',' ','a',' ','v','a','l','i','d',' ','H','T','T','P','S',' ','U','R','L']))
+                        else
+                          if ((c.PostLogoutRedirectURI != ([] : Go.Str)) && (c.PostLogoutRedirectURI != ['/'])) then
+                            if ((!(c.isValidSecureURL c.PostLogoutRedirectURI)) && (!(Go.hasPrefix c.PostLogoutRedirectURI ['/']))) then
+                              (some (['p','o','s','t','L','o','g','o','u','t','R','e','d','i','r','e','c','t','U','R','I',' ','m','u','s','t',' ','b','e',' ','e','i','t','h','e','r',' ','a',' ','v','a','l','i','d',' ','H','T','T','P','S',' ','U','R','L',' ','o','r',' ','s','t','a','r','t',' ','w','i','t','h',' ','/']))
+                            else
+                              if (decide (c.RateLimit < MinRateLimit)) then
+                                (some (['r','a','t','e','L','i','m','i','t',' ','m','u','s','t',' ','b','e',' ','a','t',' ','l','e','a','s','t',' ','%','d']))
+                              else
+                                if (decide (c.RefreshGracePeriodSeconds < (0 : Int))) then
+                                  (some (['r','e','f','r','e','s','h','G','r','a','c','e','P','e','r','i','o','d','S','e','c','o','n','d','s',' ','c','a','n','n','o','t',' ','b','e',' ','n','e','g','a','t','i','v','e']))
+                                else
+                                  match Go.forRange c.Headers () (fun header () =>
+                                    if (header.Name == ([] : Go.Str)) then
+                                      .ret ((some (['h','e','a','d','e','r',' ','n','a','m','e',' ','c','a','n','n','o','t',' ','b','e',' ','e','m','p','t','y'])))
+                                    else
+                                      if (header.Value == ([] : Go.Str)) then
+                                        .ret ((some (['h','e','a','d','e','r',' ','v','a','l','u','e',' ','t','e','m','p','l','a','t','e',' ','c','a','n','n','o','t',' ','b','e',' ','e','m','p','t','y'])))
+                                      else
+                                        if ((!(Go.contains header.Value ['{','{'])) || (!(Go.contains header.Value ['}','}']))) then
+                                          .ret ((some (['h','e','a','d','e','r',' ','v','a','l','u','e',' ','\''] ++ header.Value ++ ['\'',' ','d','o','e','s',' ','n','o','t',' ','a','p','p','e','a','r',' ','t','o',' ','b','e',' ','a',' ','v','a','l','i','d',' ','t','e','m','p','l','a','t','e',' ','(','m','i','s','s','i','n','g',' ','{','{',' ','}','}',')'])))
+                                        else
+                                          if (Go.contains header.Value ['{','{','.','c','l','a','i','m','s']) then
+                                            .ret ((some (['h','e','a','d','e','r',' ','t','e','m','p','l','a','t','e',' ','\''] ++ header.Value ++ ['\'',' ','a','p','p','e','a','r','s',' ','t','o',' ','u','s','e',' ','l','o','w','e','r','c','a','s','e',' ','\'','c','l','a','i','m','s','\'',' ','-',' ','u','s','e',' ','\'','{','{','.','C','l','a','i','m','s','.','.','.','\'',' ','i','n','s','t','e','a','d',' ','(','c','a','s','e',' ','s','e','n','s','i','t','i','v','e',')'])))
+                                          else
+                                            if (Go.contains header.Value ['{','{','.','a','c','c','e','s','s','T','o','k','e','n']) then
+                                              .ret ((some (['h','e','a','d','e','r',' ','t','e','m','p','l','a','t','e',' ','\''] ++ header.Value ++ ['\'',' ','a','p','p','e','a','r','s',' ','t','o',' ','u','s','e',' ','l','o','w','e','r','c','a','s','e',' ','\'','a','c','c','e','s','s','T','o','k','e','n','\'',' ','-',' ','u','s','e',' ','\'','{','{','.','A','c','c','e','s','s','T','o','k','e','n','.','.','.','\'',' ','i','n','s','t','e','a','d',' ','(','c','a','s','e',' ','s','e','n','s','i','t','i','v','e',')'])))
+                                            else
+                                              if (Go.contains header.Value ['{','{','.','i','d','T','o','k','e','n']) then
+                                                .ret ((some (['h','e','a','d','e','r',' ','t','e','m','p','l','a','t','e',' ','\''] ++ header.Value ++ ['\'',' ','a','p','p','e','a','r','s',' ','t','o',' ','u','s','e',' ','l','o','w','e','r','c','a','s','e',' ','\'','i','d','T','o','k','e','n','\'',' ','-',' ','u','s','e',' ','\'','{','{','.','I','d','T','o','k','e','n','.','.','.','\'',' ','i','n','s','t','e','a','d',' ','(','c','a','s','e',' ','s','e','n','s','i','t','i','v','e',')'])))
+                                              else
+                                                if (Go.contains header.Value ['{','{','.','r','e','f','r','e','s','h','T','o','k','e','n']) then
+                                                  .ret ((some (['h','e','a','d','e','r',' ','t','e','m','p','l','a','t','e',' ','\''] ++ header.Value ++ ['\'',' ','a','p','p','e','a','r','s',' ','t','o',' ','u','s','e',' ','l','o','w','e','r','c','a','s','e',' ','\'','r','e','f','r','e','s','h','T','o','k','e','n','\'',' ','-',' ','u','s','e',' ','\'','{','{','.','R','e','f','r','e','s','h','T','o','k','e','n','.','.','.','\'',' ','i','n','s','t','e','a','d',' ','(','c','a','s','e',' ','s','e','n','s','i','t','i','v','e',')'])))
+                                                else
+                                                  .next ()) with
+                                  | .ret r => r
+                                  | .next () =>
+                                    (none : Go.Err)
+                                  | .brk () =>
+                                    (none : Go.Err)
+                          else
+                            if (decide (c.RateLimit < MinRateLimit)) then
+                              (some (['r','a','t','e','L','i','m','i','t',' ','m','u','s','t',' ','b','e',' ','a','t',' ','l','e','a','s','t',' ','%','d']))
+                            else
+                              if (decide (c.RefreshGracePeriodSeconds < (0 : Int))) then
+                                (some (['r','e','f','r','e','s','h','G','r','a','c','e','P','e','r','i','o','d','S','e','c','o','n','d','s',' ','c','a','n','n','o','t',' ','b','e',' ','n','e','g','a','t','i','v','e']))
+                              else
+                                match Go.forRange c.Headers () (fun header () =>
+                                  if (header.Name == ([] : Go.Str)) then
+                                    .ret ((some (['h','e','a','d','e','r',' ','n','a','m','e',' ','c','a','n','n','o','t',' ','b','e',' ','e','m','p','t','y'])))
+                                  else
+                                    if (header.Value == ([] : Go.Str)) then
+                                      .ret ((some (['h','e','a','d','e','r',' ','v','a','l','u','e',' ','t','e','m','p','l','a','t','e',' ','c','a','n','n','o','t',' ','b','e',' ','e','m','p','t','y'])))
+                                    else
+                                      if ((!(Go.contains header.Value ['{','{'])) || (!(Go.contains header.Value ['}','}']))) then
+                                        .ret ((some (['h','e','a','d','e','r',' ','v','a','l','u','e',' ','\''] ++ header.Value ++ ['\'',' ','d','o','e','s',' ','n','o','t',' ','a','p','p','e','a','r',' ','t','o',' ','b','e',' ','a',' ','v','a','l','i','d',' ','t','e','m','p','l','a','t','e',' ','(','m','i','s','s','i','n','g',' ','{','{',' ','}','}',')'])))
+                                      else
+                                        if (Go.contains header.Value ['{','{','.','c','l','a','i','m','s']) then
+                                          .ret ((some (['h','e','a','d','e','r',' ','t','e','m','p','l','a','t','e',' ','\''] ++ header.Value ++ ['\'',' ','a','p','p','e','a','r','s',' ','t','o',' ','u','s','e',' ','l','o','w','e','r','c','a','s','e',' ','\'','c','l','a','i','m','s','\'',' ','-',' ','u','s','e',' ','\'','{','{','.','C','l','a','i','m','s','.','.','.','\'',' ','i','n','s','t','e','a','d',' ','(','c','a','s','e',' ','s','e','n','s','i','t','i','v','e',')'])))
+                                        else
+                                          if (Go.contains header.Value ['{','{','.','a','c','c','e','s','s','T','o','k','e','n']) then
+                                            .ret ((some (['h','e','a','d','e','r',' ','t','e','m','p','l','a','t','e',' ','\''] ++ header.Value ++ ['\'',' ','a','p','p','e','a','r','s',' ','t','o',' ','u','s','e',' ','l','o','w','e','r','c','a','s','e',' ','\'','a','c','c','e','s','s','T','o','k','e','n','\'',' ','-',' ','u','s','e',' ','\'','{','{','.','A','c','c','e','s','s','T','o','k','e','n','.','.','.','\'',' ','i','n','s','t','e','a','d',' ','(','c','a','s','e',' ','s','e','n','s','i','t','i','v','e',')'])))
+                                          else
+                                            if (Go.contains header.Value ['{','{','.','i','d','T','o','k','e','n']) then
+                                              .ret ((some (['h','e','a','d','e','r',' ','t','e','m','p','l','a','t','e',' ','\''] ++ header.Value ++ ['\'',' ','a','p','p','e','a','r','s',' ','t','o',' ','u','s','e',' ','l','o','w','e','r','c','a','s','e',' ','\'','i','d','T','o','k','e','n','\'',' ','-',' ','u','s','e',' ','\'','{','{','.','I','d','T','o','k','e','n','.','.','.','\'',' ','i','n','s','t','e','a','d',' ','(','c','a','s','e',' ','s','e','n','s','i','t','i','v','e',')'])))
+                                            else
+                                              if (Go.contains header.Value ['{','{','.','r','e','f','r','e','s','h','T','o','k','e','n']) then
+                                                .ret ((some (['h','e','a','d','e','r',' ','t','e','m','p','l','a','t','e',' ','\''] ++ header.Value ++ ['\'',' ','a','p','p','e','a','r','s',' ','t','o',' ','u','s','e',' ','l','o','w','e','r','c','a','s','e',' ','\'','r','e','f','r','e','s','h','T','o','k','e','n','\'',' ','-',' ','u','s','e',' ','\'','{','{','.','R','e','f','r','e','s','h','T','o','k','e','n','.','.','.','\'',' ','i','n','s','t','e','a','d',' ','(','c','a','s','e',' ','s','e','n','s','i','t','i','v','e',')'])))
+                                              else
+                                                .next ()) with
+                                | .ret r => r
+                                | .next () =>
+                                  (none : Go.Err)
+                                | .brk () =>
+                                  (none : Go.Err)
 
 /-- SessionData.expireAccessTokenChunks (session.go) -/
 def SessionData_expireAccessTokenChunks (fuel : Nat) (sd : Go.SessData) (w : Bool) : Option (Go.SessData) :=
